@@ -266,4 +266,69 @@ def gen(rng, tier):
                 a3 = list(a); a3[-1] = max(0, a3[-1] - 1)
                 reqs.append("C02 raw.sub_sign %s %s" % (wl(a3 + z1), wl(a + z2)))
             reqs.append("C02 raw.sub_sign %s %s" % (wl([0] * la), wl(b + z2)))
+    # api-coverage block: trait `CheckedMul for BigInt` (op `i.checked_mul_t`): every sign pair on zero / one-digit /
+    # power-of-two operands and one operand pair per regime (schoolbook, half-Karatsuba, Karatsuba, Toom-3)
+    for sa in (-1, 0, 1):
+        for sb in (-1, 0, 1):
+            for (la, lb) in ((1, 1), (1, 4), (2, 2), (tS + 1, tS + 2)):
+                a = sa * val(pat(rng, la, "rand")); b = sb * val(pat(rng, lb, rng.choice(["rand", "pow2", "ones"])))
+                reqs.append("C02 i.checked_mul_t %s %s" % (wi(a), wi(b)))
+    shapes = [(3, 70), (tS, tS), (tS + 1, tS + 1), (tS + 1, 2 * tS + 3), (2 * tS + 1, 2 * tS + 2), (tK + 1, tK + 2)]
+    if tier == "thorough":
+        shapes += [(tK + 1, 2 * tK + 2), (3 * tK + 1, 3 * tK + 2)]
+    for (n, m) in shapes:
+        for (pa, pb) in (("rand", "rand"), ("ones", "ones"), ("hi_small", "hi_big"), ("thirds_alt", "lowzero")):
+            a, b = pat(rng, n, pa), pat(rng, m, pb)
+            if rng.randrange(2):
+                a, b = b, a
+            reqs.append("C02 i.checked_mul_t %s%s %s%s" % ("+-"[rng.randrange(2)], wl(a), "+-"[rng.randrange(2)], wl(b)))
+    reqs += scalar_requests(rng, tier, tS)
     return reqs
+
+
+SC_BITS = {"u8": 8, "u16": 16, "u32": 32, "u64": 64, "u128": 128, "usize": 64,
+           "i8": 8, "i16": 16, "i32": 32, "i64": 64, "i128": 128, "isize": 64}
+
+def scalar_requests(rng, tier, tS):
+    """api-coverage block: scalar multiplication forms (ops `u./i. mul_s s_mul mul_assign_s`).  Scalars: 0, 1, powers of
+    two (the shift fast path of `scalar_mul`), MAX / MIN, one- and two-digit values (u128/i128: `mul3` with a 2-digit
+    operand, low digit zero, high digit with top bit set); big operand: zero, one digit, all-ones (carry out of every
+    digit), low zero digits, lengths on both sides of the schoolbook threshold; all sign pairs for BigInt."""
+    out = []
+    k = 0
+    thorough = tier == "thorough"
+    for t, bits in SC_BITS.items():
+        sg = t.startswith("i")
+        mx = (1 << (bits - 1)) - 1 if sg else (1 << bits) - 1
+        mn = -(1 << (bits - 1)) if sg else 0
+        scal = [0, 1, 2, mx, mx - 1, 1 << (bits // 2), 1 << (bits - 2), 3, rng.randrange(1, mx + 1)]
+        if bits >= 64:
+            scal += [(1 << 32) - 1, 1 << 32, (1 << 63) - 1, 1 << 62]
+        if bits == 128:
+            scal += [MAX, B, B + 1, 1 << 126, (1 << 126) + 1, (MAX << 64) & mx, (1 << 96) + 5, rng.randrange(B, mx + 1)]
+        if sg:
+            scal += [mn, mn + 1, -1, -2, -(1 << (bits // 2)), -rng.randrange(1, mx + 1)]
+        if thorough:
+            scal += [rng.randrange(mn, mx + 1) for _ in range(12)]
+        scal = [s for s in dict.fromkeys(scal) if mn <= s <= mx]
+        for s in scal:
+            bigs = [0, 1, rng.randrange(1, B), MAX, val([MAX] * 3), val([0, 0, 1]), val(pat(rng, 2, "rand")),
+                    val(pat(rng, 5, "lowzero")), val(pat(rng, tS, "ones")), val(pat(rng, tS + 1, "rand")), val(pat(rng, 40, "rand"))]
+            if thorough:
+                bigs += [val(pat(rng, 2 * tS + 3, "hi_small")), val(pat(rng, 70, "sparse"))]
+            for i, m in enumerate(bigs):
+                tok = "%s:%d" % (t, s)
+                k += 1
+                op = ["mul_s", "s_mul", "mul_assign_s"][k % 3]
+                if not sg:
+                    if op == "s_mul":
+                        out.append("C02 u.%s %s %s" % (op, tok, wu(m)))
+                    else:
+                        out.append("C02 u.%s %s %s" % (op, wu(m), tok))
+                sm = -m if (k // 3) % 2 else m
+                op = ["mul_s", "s_mul", "mul_assign_s"][(k + 1 + k // 6) % 3]
+                if op == "s_mul":
+                    out.append("C02 i.%s %s %s" % (op, tok, wi(sm)))
+                else:
+                    out.append("C02 i.%s %s %s" % (op, wi(sm), tok))
+    return out
